@@ -192,6 +192,100 @@ namespace net
     after_op(true, r, prem, "assume");
   }
 
+  // A client of the LRA theory imposes a bound directly (the executor's protocol for delays and frozen values): it decides a
+  // literal of its own, calls set_lb/set_ub/set with that literal as the reason and, if the theory reports a conflict, asks the
+  // theory to backtrack, analyse and backjump. For the reference the client's claim is the permanent fact guard -> bound; the
+  // guard is only ever made true here, and the bound lives exactly as long as the decision level the guard was decided at.
+  void Run::op_cbound(const Op &op)
+  {
+    if (!lra || guards.empty() || lra_defs.empty())
+    {
+      cnt.inc("skipped.cbound");
+      return;
+    }
+    ensure_clean();
+    if (dead || stop)
+      return;
+    Guard &gd = guards[static_cast<size_t>(std::abs(op.arg(0))) % guards.size()];
+    if (sat->value(gd.g) != smt::Undefined)
+    {
+      cnt.inc("skipped.cbound_guard_assigned");
+      return;
+    }
+    if (!gd.defined)
+    {
+      std::vector<int> us = lra_usable();
+      if (us.empty())
+        return;
+      const size_t xi = static_cast<size_t>(std::abs(op.arg(1)));
+      gd.x = us[xi >= 1000 ? us.size() - 1 - (xi - 1000) % us.size() : xi % us.size()]; // >= 1000: counted back from the most recent variable
+      gd.kind = static_cast<int>(std::abs(op.arg(2)) % 3);
+      long den = std::abs(op.arg(4)) % 4 + 1;
+      mpq_class q(op.arg(3), den);
+      q.canonicalize();
+      const long mode = std::abs(op.arg(6)) % 4; // 0,1: absolute; 2: around the current value; 3: around the opposite bound (conflicts and near misses)
+      if (mode == 2)
+        q += lra_value(gd.x).r;
+      else if (mode == 3)
+      {
+        Qx opp = from(gd.kind == 1 ? lra->lb(static_cast<smt::var>(gd.x)) : lra->ub(static_cast<smt::var>(gd.x)));
+        if (!opp.inf)
+          q += opp.r;
+      }
+      if (q.get_num().fits_slong_p() == 0 || q.get_den().fits_slong_p() == 0 || abs(q.get_num()) > 1000000 || q.get_den() > 1000000)
+        q = mpq_class(op.arg(3), den), q.canonicalize();
+      int strict = gd.kind == 2 ? 0 : static_cast<int>(std::abs(op.arg(5)) % 2);
+      gd.val = Qx(q, gd.kind == 0 ? strict : -strict);
+      LinR e;
+      e.add(gd.x, 1);
+      e.k = -q;
+      gd.atom = f_atom(LRA, e, gd.kind == 2 ? EQ : (gd.kind == 0 ? (strict ? GT : GEQ) : (strict ? LT : LEQ)));
+      gd.defined = true;
+      add_fact(f_n(F::IMP, {f_lit(lit(gd.g)), gd.atom}));
+      cnt.inc("cbound.defined");
+    }
+    else
+      cnt.inc("cbound.reimposed");
+    const lit g(gd.g);
+    const size_t lvl0 = sat->decision_level();
+    take_snapshot();
+    std::vector<z3::expr> prem = zdecisions();
+    {
+      Suspend s;
+      prem.push_back(z.zl(g));
+    }
+    // deciding the guard and imposing the bound are one step for the oracles (in between the reference knows more than the theory)
+    const bool r0 = sat->assume(g);
+    cnt.inc("assume");
+    if (!r0 || sat->value(g) != smt::True)
+    {
+      cnt.inc("cbound.guard_refuted");
+      tr("cbound: assume " + lstr(g) + " -> " + (r0 ? "true" : "false") + " level=" + std::to_string(sat->decision_level()));
+      after_op(true, r0, prem, "assume");
+      return;
+    }
+    const smt::inf_rational v(to_rat(gd.val.r), to_rat(gd.val.e));
+    const smt::var x = static_cast<smt::var>(gd.x);
+    bool r = gd.kind == 0 ? lra->set_lb(x, v, g) : (gd.kind == 1 ? lra->set_ub(x, v, g) : lra->set(x, v, g));
+    tr("cbound " + lstr(g) + " => " + f_text(gd.atom) + " -> " + (r ? "true" : "false"));
+    bool r2;
+    if (!r)
+    { // the theory holds a conflict found outside propagation
+      cnt.inc("cbound.conflict");
+      r2 = lra->backtrack_analyze_and_backjump();
+      if (r2 && sat->decision_level() + 1 < lvl0 + 1)
+        cnt.inc("probe.cbound_backjump_gt1");
+    }
+    else
+    {
+      cnt.inc("cbound.accepted");
+      r2 = sat->propagate();
+    }
+    queue_clean = true;
+    tr(std::string("cbound follow-up -> ") + (r2 ? "true" : "false") + " level=" + std::to_string(sat->decision_level()));
+    after_op(true, r2, prem, "cbound");
+  }
+
   // exhaustive probe of a reified construct: every assignment of its (free) arguments and of the
   // returned literal is driven through assume; the local meaning is evaluated by after_op (N3).
   void Run::op_sweep(const Op &op)
